@@ -43,6 +43,7 @@ func baseCtx() pongo2.Context {
 		"sep": "-", "two": 2, "q": "q",
 		"m":     map[string]any{"k": "mk"},
 		"fn":    func() string { return "fr" },
+		"pair":  func(a, b *pongo2.Value) *pongo2.Value { return pongo2.AsSafeValue(a.String() + "/" + b.String()) },
 		"items": []string{"i0", "i1", "i2", "i3", "i4", "i5", "i6", "i7", "i8", "i9", "i10", "i11"},
 	}
 }
@@ -151,6 +152,22 @@ func (c *Case) Exec(t *eng.T) {
 		src = "{% macro mm(p) %}<{{ p }}>{% endmacro %}{{ mm(" + expr + ") }}"
 		if oerr == nil {
 			want = "<" + printed(res) + ">"
+		}
+	case "macro-arg-first":
+		// the filtered expression is followed by further elements of a comma-separated list
+		src = "{% macro mm(p, q) %}<{{ p }}|{{ q }}>{% endmacro %}{{ mm(" + expr + ", 5) }}"
+		if oerr == nil {
+			want = "<" + printed(res) + "|5>"
+		}
+	case "call-arg-first":
+		src = "{{ pair(" + expr + ", n|add:1) }}"
+		if oerr == nil {
+			want = printed(res) + "/" + fmt.Sprint(ctx["n"].(int)+1)
+		}
+	case "array-item-first":
+		src = "{% for z in [" + expr + ", 5] %}<{{ z }}>{% endfor %}"
+		if oerr == nil {
+			want = "<" + printed(res) + "><5>"
 		}
 	case "macro-default":
 		src = "{% macro mm(p=" + expr + ") %}<{{ p }}>{% endmacro %}{{ mm() }}"
@@ -306,6 +323,47 @@ func (c *RegCase) Exec(t *eng.T) {
 	}
 }
 
+// ConsistCase: every way of asking "is this filter name registered" gives the same answer.
+type ConsistCase struct {
+	Name    string `json:"name"`
+	Builtin bool   `json:"builtin"` // a documented built-in name: the answer must be yes
+}
+
+func (c *ConsistCase) ID() string {
+	return fmt.Sprintf("registry consistency: %s builtin=%v", c.Name, c.Builtin)
+}
+
+func (c *ConsistCase) Exec(t *eng.T) {
+	t.Nontrivial()
+	exists := pongo2.FilterExists(c.Name)
+	set, _ := px.NewSet(nil)
+	_, o1 := px.Compile(set, "{{ s|"+c.Name+":\"2006\" }}")
+	_, o2 := px.Compile(set, "{{ s|"+c.Name+" }}")
+	inVar := !(o1.Compile && strings.Contains(o1.Err, "does not exist")) || !(o2.Compile && strings.Contains(o2.Err, "does not exist"))
+	_, o3 := px.Compile(set, "{% filter "+c.Name+" %}x{% endfilter %}")
+	o3x := px.Render(nil, "{% filter "+c.Name+" %}x{% endfilter %}", nil)
+	inTag := !(o3.Compile && strings.Contains(o3.Err, "does not exist")) && !strings.Contains(o3x.Err, "does not exist") && !strings.Contains(o3x.Err, "not found")
+	listed := false
+	for _, f := range pongo2.VerifRegisteredFilters() {
+		if f == c.Name {
+			listed = true
+		}
+	}
+	// a registration attempt under a name that is in use must be refused; under a free name it would succeed (and is
+	// not tried: it would change the process-wide registry)
+	refused := true
+	if exists || inVar || inTag || listed || c.Builtin {
+		refused = pongo2.RegisterFilter(c.Name, func(in, p *pongo2.Value) (*pongo2.Value, *pongo2.Error) { return pongo2.AsValue("HIJACKED"), nil }) != nil
+	}
+	t.Outcome(fmt.Sprint(exists, inVar, inTag, listed, refused))
+	want := c.Builtin
+	if exists != want || inVar != want || inTag != want || listed != want || (want && !refused) {
+		t.Fail("registry:inconsistent", "filter name %q (built-in: %v): FilterExists=%v, usable in {{ v|name }}=%v, usable in {%% filter name %%}=%v, in the registry listing=%v, second registration refused=%v", c.Name, c.Builtin, exists, inVar, inTag, listed, refused)
+	}
+}
+
+var builtinFilterNames = strings.Fields("add addslashes capfirst center cut date default default_if_none divisibleby e escape escapejs first float floatformat get_digit integer iriencode join last length length_is linebreaks linebreaksbr linenumbers ljust lower make_list pluralize random removetags rjust safe slice split stringformat striptags time title truncatechars truncatechars_html truncatewords truncatewords_html upper urlencode urlize urlizetrunc wordcount wordwrap yesno")
+
 type filt struct {
 	name string
 	args []string
@@ -333,7 +391,7 @@ func run(r *eng.Runner) {
 		}
 	}
 	inputs := []string{"s", "l", "n", "e", "missing", `"Lit q"`, "7", "m.k", "fn()", `"12.34"`, "1"}
-	positions := []string{"output", "if", "for", "with", "set", "macro-arg", "macro-default", "filter-tag", "scoped-arg", "subscript", "binds-tighter", "with-sibling", "with-sibling-old"}
+	positions := []string{"output", "if", "for", "with", "set", "macro-arg", "macro-default", "filter-tag", "scoped-arg", "subscript", "binds-tighter", "with-sibling", "with-sibling-old", "macro-arg-first", "call-arg-first", "array-item-first"}
 	maxLen := 3
 	if !r.Quick() {
 		maxLen = 4
@@ -403,6 +461,14 @@ func run(r *eng.Runner) {
 		r.Do(&unk[i])
 	}
 
+	r.Group("registry-consistency", "c19.consist", fmt.Sprintf("every documented built-in filter name (%d, aliases included) and 6 unregistered names: FilterExists, use in {{ v|name }}, use in the filter tag, the registry listing and a second registration agree", len(builtinFilterNames)))
+	for _, n := range builtinFilterNames {
+		r.Do(&ConsistCase{Name: n, Builtin: true})
+	}
+	for _, n := range []string{"nosuch", "Upper", "uppe", "upperr", "e2", "times"} {
+		r.Do(&ConsistCase{Name: n})
+	}
+
 	r.Group("register-twice", "c19.reg", "registering an existing filter or tag name a second time is refused and changes nothing")
 	for _, f := range []string{"upper", "escape", "safe", "length"} {
 		r.Do(&RegCase{Kind: "filter", Name: f})
@@ -416,6 +482,7 @@ func init() {
 	eng.RegisterCase("c19.case", func() eng.Case { return &Case{} })
 	eng.RegisterCase("c19.unknown", func() eng.Case { return &UnknownCase{} })
 	eng.RegisterCase("c19.reg", func() eng.Case { return &RegCase{} })
+	eng.RegisterCase("c19.consist", func() eng.Case { return &ConsistCase{} })
 	eng.Register(&eng.Check{
 		ID:    "C19",
 		Title: "Filters are applied in written order, everywhere filters can be written",
